@@ -17,6 +17,7 @@ Mirrors the code as it is now (after the `fix:` commits in /repo).  Core Lean on
 | types/callabletype.go `CallableType.CallableWith`                    | `blockOK`, `callableWith`         |
 | types/tupletype.go `TupleType.IsInstance3` (size test; `last < 0`; `tdx` stops at `last`) | `sizeOK`, `instLoop`, `tupleInst` |
 | internal/function.go `goFunction.Call`                               | `callFrom`, `call`                |
+| internal/function.go `goFunction` (struct: `name`, `dispatchers`) and a sequence of `Call`s on one object | `FnState`, `callStep`, `callSeq`, `runSeq` |
 | types/types.go `newInstance` (type receiver: `Newable` short-cut, `Creatable.Constructor`, constructor by name, `AssertInstance(typ, r)`) | `newInstance` |
 | types/inittype.go `InitType.New` (result asserted against the contained type) | `Recv.init` arm of `newInstance` |
 
@@ -232,6 +233,36 @@ def callFrom (i : Nat) : List (Dispatch T BT) → List V → Option B → Outcom
 
 def call (ds : List (Dispatch T BT)) (args : List V) (blk : Option B) : Outcome := callFrom inst binst 0 ds args blk
 
+/-- `goFunction`: the resolved function object.  Its fields are `name` (irrelevant to dispatch) and `dispatchers`; there is no
+    other field, in particular nothing that a call could write -/
+structure FnState (T BT : Type) where
+  dispatchers : List (Dispatch T BT)
+
+/-- facts regenerated from internal/function.go on every run (extract family `fnfacts`): the fields of `goFunction` and
+    every statement of a `*goFunction` method that assigns, increments or takes the address of a receiver field
+    (method, kind, source) -/
+structure FnFacts where
+  fields : List String
+  writes : List (String × String × String)
+  deriving Repr
+
+/-- the side condition under which `FnState` (only `dispatchers`) and a `callStep` that returns the object unchanged
+    represent the code: no field beyond `name` and `dispatchers`, and no method writes the receiver -/
+def FnStateless (f : FnFacts) : Bool :=
+  f.fields.all (fun x => x == "name" || x == "dispatchers") && f.writes.isEmpty
+
+/-- one `goFunction.Call` on the function object: the answer and the object afterwards.  `Call` only *reads*
+    `f.dispatchers`; it assigns no field of `f` -/
+def callStep (s : FnState T BT) (args : List V) (blk : Option B) : Outcome × FnState T BT :=
+  (call inst binst s.dispatchers args blk, s)
+
+/-- a sequence of calls on ONE function object, threading the object through -/
+def callSeq : FnState T BT → List (List V × Option B) → List Outcome
+  | _, [] => []
+  | s, (args, blk) :: rest =>
+    let r := callStep inst binst s args blk
+    r.1 :: callSeq r.2 rest
+
 /-- whole pipeline of the `call` op: build, resolve, call -/
 inductive RunOutcome where
   | builderRejected (p : Panic)
@@ -245,6 +276,20 @@ def run (cs : List (Creator T BT)) (args : List V) (blk : Option B) : RunOutcome
   | .ok bs => match resolveAll bs with
     | .error e => .resolveFailed e
     | .ok ds => .called (call inst binst ds args blk)
+
+/-- the `calls` op: build and resolve once, then the sequence -/
+inductive RunSeqOutcome where
+  | builderRejected (p : Panic)
+  | resolveFailed (e : ResolveError)
+  | called (os : List Outcome)
+  deriving Repr
+
+def runSeq (cs : List (Creator T BT)) (calls : List (List V × Option B)) : RunSeqOutcome :=
+  match buildAll cs with
+  | .error p => .builderRejected p
+  | .ok bs => match resolveAll bs with
+    | .error e => .resolveFailed e
+    | .ok ds => .called (callSeq inst binst { dispatchers := ds } calls)
 
 end Call
 
